@@ -135,12 +135,19 @@ struct Model {
     timeouts: Vec<u64>,
     closed: bool,
     states_visited: std::collections::BTreeSet<String>,
+    /// consecutive-timeout limit of the channel and the current count on this connection
+    max_timeouts: Option<u64>,
+    consecutive_timeouts: u64,
 }
 
 impl Model {
     fn decide(&mut self, id: usize, classes: &[&'static str]) {
         if self.decided[id].is_none() {
             self.decided[id] = Some(classes.to_vec());
+            // any outcome other than a timeout restarts the consecutive-timeout count
+            if classes != ["timeout"] {
+                self.consecutive_timeouts = 0;
+            }
         }
     }
     fn mode_name(&self) -> &'static str {
@@ -153,6 +160,7 @@ impl Model {
         }
     }
     fn connect(&mut self) {
+        self.consecutive_timeouts = 0;
         match self.plan.pop_front().unwrap_or(Conn::Up) {
             Conn::Up => {
                 self.mode = Mode::Connected {
@@ -251,13 +259,19 @@ impl Model {
                 break;
             }
             self.now = self.now.max(t);
-            if let Mode::Connected { outstanding: Some((id, _)), .. } = self.mode.clone() {
+            if let Mode::Connected { outstanding: Some((id, _)), write_err_armed, .. } = self.mode.clone() {
                 self.decide(id, &["timeout"]);
-                self.mode = Mode::Connected {
-                    outstanding: None,
-                    write_err_armed: false,
-                    partial: false,
-                };
+                self.consecutive_timeouts += 1;
+                if self.max_timeouts.map(|m| self.consecutive_timeouts >= m).unwrap_or(false) {
+                    // the connection is dropped for re-establishment
+                    self.mode = Mode::Wait { until: self.now + WAIT_MS };
+                } else {
+                    self.mode = Mode::Connected {
+                        outstanding: None,
+                        write_err_armed,
+                        partial: false,
+                    };
+                }
             }
             self.pump();
         }
@@ -332,6 +346,7 @@ fn run_script(seed: u64, n: u64, ev: &mut Evidence) {
     let decode = (rng.u8() % 4, rng.u8() % 3, rng.u8() % 3);
     let script2 = script.clone();
     let plan2 = plan.clone();
+    let max_timeouts: Option<u64> = *rng.pick(&[None, None, Some(1), Some(2), Some(3)]);
 
     let result = run_paused(|| async move {
         let seq = Seq::default();
@@ -341,7 +356,7 @@ fn run_script(seed: u64, n: u64, ev: &mut Evidence) {
             seq: seq.clone(),
             connects: 0,
         }));
-        let (channel, sim) = rodbus::verif::client(rodbus::verif::Framing::Mbap, cap, decode_level(decode), None);
+        let (channel, sim) = rodbus::verif::client(rodbus::verif::Framing::Mbap, cap, decode_level(decode), max_timeouts.and_then(|m| std::num::NonZeroUsize::new(m as usize)));
         let task = tokio::spawn(channel_task(sim, world.clone()));
         let start = tokio::time::Instant::now();
         let mut handles: Vec<Option<rodbus::client::Channel>> = vec![Some(channel)];
@@ -357,6 +372,8 @@ fn run_script(seed: u64, n: u64, ev: &mut Evidence) {
             timeouts: vec![],
             closed: false,
             states_visited: Default::default(),
+            max_timeouts,
+            consecutive_timeouts: 0,
         };
         let mut slots: Vec<Arc<Slot>> = vec![];
         let mut outcomes: Vec<CallOutcome> = vec![];
@@ -582,7 +599,7 @@ fn run_script(seed: u64, n: u64, ev: &mut Evidence) {
     });
 
     ev.eval();
-    let rep = json!({"n": n, "script": script.iter().map(|e| format!("{e:?}")).collect::<Vec<_>>(), "conn_plan": plan.iter().map(|c| format!("{c:?}")).collect::<Vec<_>>(), "queue": cap});
+    let rep = json!({"n": n, "script": script.iter().map(|e| format!("{e:?}")).collect::<Vec<_>>(), "conn_plan": plan.iter().map(|c| format!("{c:?}")).collect::<Vec<_>>(), "queue": cap, "max_timeouts": max_timeouts});
     let (comps, outcomes, styles, decided, joined, task_panicked, _aborted, log, states, _connects) = match result {
         Err(p) => {
             ev.violation(format!("panic:{}", crate::util::panic_site(&p)), format!("panicked: {p}"), rep);
